@@ -1243,6 +1243,31 @@ fn receive(prop: &str, signers: &[Signer], events: &[SignEvent], n: &Notice, d: 
         w[idx] = true;
       }
     }
+    // an EC key as a sloppy directory might list it: the two coordinates cut at another place (x one byte short, y one
+    // byte long - together still 64 bytes), or the curve member naming ANOTHER curve than the one the key is on: neither
+    // is the signer's key, verification must fail
+    if !wrong && signers[si].alg != "EdDSA" && ctx::chance(1, 10) {
+      let (x, y) = (
+        key_json["x"].as_str().and_then(b64url_decode).unwrap_or_default(),
+        key_json["y"].as_str().and_then(b64url_decode).unwrap_or_default(),
+      );
+      if x.len() == 32 && y.len() == 32 {
+        if ctx::choose(2) == 0 {
+          let mut ny = vec![x[31]];
+          ny.extend_from_slice(&y);
+          key_json["x"] = b64(&x[..31]).into();
+          key_json["y"] = b64(&ny).into();
+          ctx::stat("fault.receiver.ec_coordinates_cut_elsewhere");
+        } else {
+          let other = if key_json["crv"].as_str() == Some("P-256") { "secp256k1" } else { "P-256" };
+          key_json["crv"] = [other, "P-384", ""][ctx::choose(3)].into();
+          ctx::stat("fault.receiver.ec_key_declares_other_curve");
+        }
+        wrong = true;
+        let mut w = wrong_key.borrow_mut();
+        w[idx] = true;
+      }
+    }
     if let Some(label) = trust_label {
       // the receiver's trust store files every key under its own label (kid is metadata, not key material)
       key_json["kid"] = label.into();
